@@ -19,7 +19,8 @@ RULE = (
     "g in {9.8125, 1} x dt in {0.125, -0.5}; thorough adds, per output, the product of principal lattices "
     "{x in N^8 : sum <= D_q} x {y in N^r : sum <= D_o} on which a polynomial identity of the measured degrees that holds "
     "at every lattice point holds identically. The compiled Python model (python.compile of symbolic_model) is evaluated "
-    "in floats on a sub-grid against the same reference. One evaluation = one output at one point. distinct = points; "
+    "in floats on a sub-grid against the same reference, every compiled model being called with all orientations / IMU samples in turn "
+    "(CSE off: all calibrations; CSE on: one calibration quaternion in quick, all in thorough). One evaluation = one output at one point. distinct = points; "
     "non-trivial = points with a non-identity composed rotation or non-zero gyro."
 )
 ASSUMPTIONS = [
@@ -125,6 +126,10 @@ def cases(tier, seed):
     for i, ori in enumerate(QUATS):
         yield {"kind": "exact", "ori": i, "seed": seed}
     yield {"kind": "compiled", "cse": False, "seed": seed}
+    if tier == "quick":
+        # CSE on (the default configuration) is slow to compile for this model: one calibration quaternion, both biases; every
+        # compiled model is called with all orientations / IMU samples in turn (a compiled model must not remember a call)
+        yield {"kind": "compiled", "cse": True, "seed": seed, "coris": [2]}
     if tier == "thorough":
         yield {"kind": "compiled", "cse": True, "seed": seed}
         from fv.props import c19_lattice
@@ -172,6 +177,8 @@ def eval_compiled(case):
     n = 0
     models = {}
     for ci, cori in enumerate(QUATS[::2]):
+        if case.get("coris") is not None and ci not in case["coris"]:
+            continue
         cori = tuple(F(x) for x in cori)
         for bi, b in enumerate([Z, (F(1, 4), F(1, 2), F(-3, 4))]):
             g = GS[(ci + bi) % 2]
